@@ -196,15 +196,13 @@ mod harnesses {
         std::mem::forget(l);
     }
 
-    /// C10-b: under the invariant the fast paths agree with the scan path.
+    /// C10-b: under the invariant the fast path over specific objects agrees with the scan path.
     #[kani::proof]
     #[kani::unwind(18)]
-    fn q_c10_listener_specific_paths_agree() {
-        let l = any_listener(0, 3, 2);
+    fn q_c10_listener_specific_objects_agree() {
+        let l = any_listener(0, 2, 2);
         let o = any_object_id(2);
-        let s = any_service_id(2);
         assert!(l.matches_object(o) == spec_listener_matches_object(&l, o));
-        assert!(l.matches_service(s) == spec_listener_matches_service(&l, s));
         match l.specific_objects() {
             None => assert!(l.filters.contains(&BusListenerFilter::Object(None))),
             Some(it) => {
@@ -218,6 +216,19 @@ mod harnesses {
                 assert!((hits == 1) == l.matches_object(o), "specific path yields exactly the matching objects");
             }
         }
+        kani::cover!(l.specific_objects().is_none());
+        kani::cover!(l.specific_objects().is_some() && l.matches_object(o));
+        std::mem::forget(l);
+    }
+
+    /// C10-b: same for services.
+    #[kani::proof]
+    #[kani::unwind(18)]
+    fn q_c10_listener_specific_services_agree() {
+        let l = any_listener(0, 2, 2);
+        let o = any_object_id(2);
+        let s = any_service_id(2);
+        assert!(l.matches_service(s) == spec_listener_matches_service(&l, s));
         match l.specific_services() {
             None => {}
             Some(it) => {
@@ -233,6 +244,18 @@ mod harnesses {
                 assert!(!l.matches_object(o));
             }
         }
+        kani::cover!(l.specific_services().is_some() && l.matches_service(s));
+        kani::cover!(l.specific_services().is_none());
+        std::mem::forget(l);
+    }
+
+    /// C10-b: new events match iff started with a scope that includes new and a filter matches.
+    #[kani::proof]
+    #[kani::unwind(18)]
+    fn q_c10_listener_matches_new_event() {
+        let l = any_listener(0, 2, 2);
+        let o = any_object_id(2);
+        let s = any_service_id(2);
         let e = match kani::any::<u8>() % 4 {
             0 => BusEvent::ObjectCreated(o),
             1 => BusEvent::ObjectDestroyed(o),
@@ -245,8 +268,7 @@ mod harnesses {
         };
         let started_new = l.scope.map(|s| s != BusListenerScope::Current).unwrap_or(false);
         assert!(l.matches_new_event(e) == (started_new && spec), "new events only while started with a scope that includes new");
-        kani::cover!(l.specific_services().is_some() && !l.filters.is_empty());
-        kani::cover!(l.specific_objects().is_none());
+        kani::cover!(l.matches_new_event(e));
         std::mem::forget(l);
     }
 
@@ -267,4 +289,7 @@ mod harnesses {
         assert!(inv(&l));
         std::mem::forget(l);
     }
+
+    #[cfg(verif_replay)]
+    include!("/verif/.cache/replay/bus_listener__verif__harnesses.rs");
 }
